@@ -136,24 +136,29 @@ fn observe(r: &mut Runner, ci: usize, ev: &Value) -> Value {
             .unwrap_or_default();
         o["walk"] = json!({"seq": seq, "term": w["term"]});
     }
-    // own state
-    let d = r.last[ci].clone();
-    let vs: Vec<Value> = d
-        .v
+    // own state, as dumped right after this very request (an Overlap step stands for several requests)
+    let d = ev["st"][ci].clone();
+    let vs: Vec<Value> = d["v"]
+        .as_array()
+        .cloned()
+        .unwrap_or_default()
         .iter()
         .map(|x| {
-            let v = r.namer.uuid(x.vid);
-            let p = r.namer.uuid(x.parent);
-            json!({"vid": cid(v, &own), "parent": cid(p, &own), "data": r.pay.bytes_of(x.tok).map(|b| fnv(b)).unwrap_or_else(|| "corrupt".into())})
+            let v = name_to_uuid(r, &x["vid"]);
+            let p = name_to_uuid(r, &x["parent"]);
+            let t = x["tok"].as_i64().unwrap_or(-1);
+            json!({"vid": cid(v, &own), "parent": cid(p, &own), "data": r.pay.bytes_of(t).map(|b| fnv(b)).unwrap_or_else(|| "corrupt".into())})
         })
         .collect();
     let mut vs = vs;
     vs.sort_by_key(|x| x.to_string());
-    let lu = r.namer.uuid(d.l);
-    let su = r.namer.uuid(d.s.vid);
-    o["state"] = json!({"e": d.e, "l": cid(lu, &own), "v": vs,
-        "s": {"has": d.s.has, "vid": cid(su, &own), "since": d.s.since, "day": d.s.day,
-              "data": r.pay.bytes_of(d.s.tok).map(|b| fnv(b)).unwrap_or_else(|| if d.s.has { "corrupt".into() } else { "".into() })}});
+    let lu = name_to_uuid(r, &d["l"]);
+    let su = name_to_uuid(r, &d["s"]["vid"]);
+    let has = d["s"]["has"].as_bool().unwrap_or(false);
+    let stok = d["s"]["tok"].as_i64().unwrap_or(-1);
+    o["state"] = json!({"e": d["e"], "l": cid(lu, &own), "v": vs,
+        "s": {"has": has, "vid": cid(su, &own), "since": d["s"]["since"], "day": d["s"]["day"],
+              "data": r.pay.bytes_of(stok).map(|b| fnv(b)).unwrap_or_else(|| if has { "corrupt".into() } else { "".into() })}});
     o
 }
 
@@ -167,22 +172,31 @@ pub fn run_ni(job: &Value, scratch: &std::path::Path, w: &mut dyn Write) -> anyh
     a.reset_event();
     // per step: (client index or None, resolved arg, body, observation)
     let mut rec: Vec<(Option<usize>, Option<Uuid>, Option<Vec<u8>>, Value, Vec<(Uuid, Uuid)>)> = vec![];
+    // an "Overlap" step stands for several requests: they are recorded in their order of completion, and a client alone
+    // makes the same requests one after the other in that order
+    let mut flat: Vec<(usize, Value)> = vec![];
     for (i, s) in steps.iter().enumerate() {
         let own_before: Vec<Vec<(Uuid, Uuid)>> = a.ledger.acc.clone();
-        let (ev, _) = a.step(s, i);
-        if ev.get("toolerr").is_some() {
-            a.cleanup();
-            anyhow::bail!("tool error: {}", ev["toolerr"]);
+        let (evs, _) = a.step_multi(s, i);
+        let multi = evs.len() > 1 || s["op"] == "Overlap";
+        for (sub, ev) in evs {
+            if ev.get("toolerr").is_some() {
+                a.cleanup();
+                anyhow::bail!("tool error: {}", ev["toolerr"]);
+            }
+            let c = sub["c"].as_i64().unwrap_or(0);
+            let ci = if c >= 1 { Some((c - 1) as usize) } else { None };
+            let arg = if ev["req"].get("arg").is_some() && ci.is_some() { Some(a.namer.uuid(ev["req"]["arg"].as_i64().unwrap_or(0))) } else { None };
+            let body = ev["req"]["tok"].as_i64().filter(|t| *t > 0).and_then(|t| a.pay.bytes_of(t).cloned());
+            let obs = match ci {
+                Some(k) => observe(&mut a, k, &ev),
+                None => Value::Null,
+            };
+            // ids are only ever quoted after they were issued: inside an Overlap the ledger after the step serves as well
+            let own = if multi { ci.map(|k| a.ledger.acc[k].clone()).unwrap_or_default() } else { ci.map(|k| own_before[k].clone()).unwrap_or_default() };
+            rec.push((ci, arg, body, obs, own));
+            flat.push((i, sub));
         }
-        let c = s["c"].as_i64().unwrap_or(0);
-        let ci = if c >= 1 { Some((c - 1) as usize) } else { None };
-        let arg = if ev["req"].get("arg").is_some() && ci.is_some() { Some(a.namer.uuid(ev["req"]["arg"].as_i64().unwrap_or(0))) } else { None };
-        let body = ev["req"]["tok"].as_i64().filter(|t| *t > 0).and_then(|t| a.pay.bytes_of(t).cloned());
-        let obs = match ci {
-            Some(k) => observe(&mut a, k, &ev),
-            None => Value::Null,
-        };
-        rec.push((ci, arg, body, obs, ci.map(|k| own_before[k].clone()).unwrap_or_default()));
     }
     a.set_day(0);
     a.cleanup();
@@ -193,8 +207,9 @@ pub fn run_ni(job: &Value, scratch: &std::path::Path, w: &mut dyn Write) -> anyh
         j["id"] = json!(format!("{}-solo{}", job["id"].as_str().unwrap_or("j"), c + 1));
         let mut b = Runner::new(&j, scratch)?;
         b.reset_event();
-        for (i, s) in steps.iter().enumerate() {
-            let (ci, arg, body, obs_a, own_a) = &rec[i];
+        for (k, (i, s)) in flat.iter().enumerate() {
+            let i = *i;
+            let (ci, arg, body, obs_a, own_a) = &rec[k];
             let is_global = matches!(s["op"].as_str().unwrap_or(""), "Tick" | "SetDay" | "SetDayRel" | "Reopen");
             if !is_global && *ci != Some(c) {
                 continue;
